@@ -9,5 +9,7 @@ import sys
 sys.path[:0] = ['/repo', '.']
 import hszinc, pyparsing, pytz
 from mc import explore, runner
-print('setup ok: hszinc', hszinc.__version__, 'pyparsing', pyparsing.__version__)
+from ref import selftest
+n = selftest.zinc_selftest(1) + selftest.json_selftest(1)
+print('setup ok: hszinc', hszinc.__version__, 'pyparsing', pyparsing.__version__, '; reference self-test:', n, 'renderings re-read')
 PY
